@@ -27,16 +27,18 @@ var Verif struct {
 
 // Kinds of yield points.
 const (
-	verifBeforeLock  uint8 = iota // before mu.Lock()
-	verifInLock                   // inside the critical section
-	verifAfterUnlock              // after mu.Unlock()
+	verifBeforeLock   uint8 = iota // before mu.Lock()
+	verifInLock                    // inside the critical section
+	verifAfterUnlock               // after mu.Unlock()
+	verifSharedAccess              // between a load and a store of state shared without a lock (mu is nil)
 )
 
 // Exported aliases of the yield kinds, for the harness.
 const (
-	VerifBeforeLock  = verifBeforeLock
-	VerifInLock      = verifInLock
-	VerifAfterUnlock = verifAfterUnlock
+	VerifBeforeLock   = verifBeforeLock
+	VerifInLock       = verifInLock
+	VerifAfterUnlock  = verifAfterUnlock
+	VerifSharedAccess = verifSharedAccess
 )
 
 // Probe IDs.
